@@ -44,7 +44,7 @@ def run_case(rng, tier, idx):
 
 def case_assembly(rng, tier):
     ad = gen.assembly_desc(rng, npan=int(rng.integers(2, 7)), mmax=5)
-    loads = [[float(x) for x in rng.normal(size=3)] for _ in ad['panels']]
+    loads = [gen.load_triple(rng) for _ in ad['panels']]
     c = Case({'obj': 'assembly', 'assembly': ad, 'loads': loads})
     c.tag('obj:assembly')
     ass, ps, conn = gen.build_assembly(ad)
@@ -99,7 +99,7 @@ def bay_matrices(bay, N):
 
 def case_split(rng, tier):
     d = gen.bay_desc(rng, mmax=6, nstiff=(0, 0), ncuts=int(rng.integers(1, 5)))
-    N = [float(x) for x in rng.normal(size=3)]
+    N = gen.load_triple(rng)
     c = Case({'obj': 'bay_split', 'bay': d, 'N': N})
     c.tag('obj:bay_split', 'curved' if 'r' in d else 'flat', 'cuts:%d' % len(d['cuts']))
     d0 = dict(d); d0['cuts'] = []
@@ -125,6 +125,21 @@ def case_split(rng, tier):
     tol = 1e-10 * amp
     for nm, A1, A0, Sx in (('k0', K1, K0, S[0]), ('kG0', G1, G0, S[1]), ('kM', M1, M0, S[2])):
         c.judge('splitting the skin leaves %s unchanged' % nm, rel(A1, A0, extra=Sx), tol)
+    # every skin strip with a pre-load of its own: bay kG0 = sum of the stand-alone strips' kG0
+    bay = gen.build_bay(d)
+    own = [gen.load_triple(rng) for _ in bay.panels]
+    c.desc['own_loads'] = own
+    Gs = np.zeros_like(G0); Ss = np.zeros_like(G0)
+    for q, Nq in zip(bay.panels, own):
+        q.Nxx, q.Nyy, q.Nxy = Nq
+        p = Panel(a=d['a'], b=d['b'], r=d.get('r'), m=d['m'], n=d['n'], stack=list(d['stack']), plyt=d['plyt'],
+                  laminaprop=tuple(d['laminaprop']), mu=d['mu'], y1=q.y1, y2=q.y2)
+        gen.apply_flags(p, d['flags'])
+        p.Nxx, p.Nyy, p.Nxy = Nq
+        g = p.calc_kG0(silent=True).toarray()
+        Gs += g; Ss += np.abs(g)
+    if Ss.any():
+        c.judge('bay kG0 with a pre-load of its own on every skin strip = sum of the stand-alone strips', rel(bay.calc_kG0(silent=True).toarray(), Gs, extra=Ss), tol)
     # third description: one Panel without sub-interval (analytic full-width kernels)
     p = Panel(a=d['a'], b=d['b'], r=d.get('r'), m=d['m'], n=d['n'], stack=list(d['stack']), plyt=d['plyt'],
               laminaprop=tuple(d['laminaprop']), mu=d['mu'])
@@ -166,7 +181,7 @@ def case_stiff(rng, tier):
     d = gen.bay_desc(rng, mmax=5, nstiff=(1, 3), ncuts=int(rng.integers(1, 3)),
                      fl=gen.flags(rng, style=str(rng.choice(['ss', 'clamped', 'mixed', 'free']))))
     st = d['stiffeners']
-    N = [float(x) for x in rng.normal(size=3)]
+    N = gen.load_triple(rng)
     c = Case({'obj': 'bay_stiff', 'bay': d, 'N': N})
     c.tag('obj:bay_stiff', 'curved' if 'r' in d else 'flat')
     for s in st:
